@@ -330,6 +330,13 @@ FOCI = {"C07": focus_c07, "C05": focus_c05, "invalid": focus_invalid, "C15": foc
         "C18": focus_c18, "C06": focus_c06, "C03": focus_c03, "C01": focus_c01}
 
 
+HISTORY_LIMIT = 120
+
+
+class HistoryTimeout(BaseException):
+    pass
+
+
 def run_history(job):
     seed, focus, tier = job
     backend = "slurm"
@@ -338,6 +345,20 @@ def run_history(job):
     rng = random.Random("%s-%s-%s" % (focus, backend, seed))
     root = common.scratch_dir("gwfverif-hist-")
     steps = []
+    import signal
+
+    def on_alarm(signum, frame):
+        raise HistoryTimeout("a gwf command of this history did not return within %d s" % HISTORY_LIMIT)
+    old_handler = signal.signal(signal.SIGALRM, on_alarm)
+    signal.alarm(HISTORY_LIMIT)
+    try:
+        import multiprocessing
+        import resource
+        soft, hard = resource.getrlimit(resource.RLIMIT_AS)
+        if multiprocessing.current_process().name != "MainProcess" and (soft == resource.RLIM_INFINITY or soft > (8 << 30)):
+            resource.setrlimit(resource.RLIMIT_AS, (8 << 30, hard))     # a command that loops while allocating must not take the machine down
+    except (ImportError, ValueError, OSError):
+        pass
     try:
         desc = H.gen_cli_project(rng, nmax=5 if tier == "quick" else 9)
         proj = H.materialise_project(root, desc, rng, backend=backend)
@@ -347,9 +368,15 @@ def run_history(job):
         FOCI[focus](proj, rng, steps)
         info = {"targets": proj.targets, "hashing": proj.hashing}
         return {"seed": seed, "focus": focus + ":" + backend, "steps": steps, "info": info, "error": None}
+    except (HistoryTimeout, MemoryError, RecursionError) as exc:
+        # the REAL command hung or blew up (the harness itself is straight-line code): a finding, not a broken check
+        return {"seed": seed, "focus": focus + ":" + backend, "steps": steps, "info": None, "error": None,
+                "hung": "%s: %s (after %d completed steps)" % (type(exc).__name__, exc, len(steps))}
     except Exception:  # noqa
         return {"seed": seed, "focus": focus + ":" + backend, "steps": steps, "info": None, "error": traceback.format_exc()[-1500:]}
     finally:
+        signal.alarm(0)
+        signal.signal(signal.SIGALRM, old_handler)
         try:
             if backend == "local":
                 proj.cluster.close()
@@ -418,7 +445,8 @@ def run_prop(chk, prop, foci, n_hist, rule, assumptions, nontrivial):
     chk.assumptions = assumptions
     jobs = []
     for fn, data in common.load_corpus(prop):
-        jobs.append((data["input"]["seed"], data["input"]["focus"], chk.tier))
+        if "focus" in data.get("input", {}):      # other corpus entries of this property belong to its other engines
+            jobs.append((data["input"]["seed"], data["input"]["focus"], chk.tier))
     for i in range(n_hist):
         jobs.append((chk.seed * 1000003 + i, foci[i % len(foci)], chk.tier))
     results = common.pmap(run_history, jobs, chunk=2)
@@ -431,6 +459,14 @@ def run_prop(chk, prop, foci, n_hist, rule, assumptions, nontrivial):
     for r in results:
         if r["error"]:
             raise common.Broken("history %r crashed in the harness:\n%s" % ((r["seed"], r["focus"]), r["error"]))
+        if r.get("hung"):
+            k += len(r["steps"])
+            chk.count("history")
+            chk.case((r["seed"], r["focus"]), True)
+            chk.violation({"kind": "history", "step": "hung", "what": r["hung"][:40]},
+                          {"kind": "history", "input": {"seed": r["seed"], "focus": r["focus"]}, "what": "a gwf command did not terminate or exhausted memory/stack: " + r["hung"],
+                           "completed_steps": [s["kind"] for s in r["steps"]]})
+            continue
         disc = []
         for idx, s in enumerate(r["steps"]):
             mline = outs[k]
@@ -469,6 +505,10 @@ def replay_prop(chk, prop, data, rule):
     chk.rule = rule
     inp = data["input"]
     r = run_history((inp["seed"], inp["focus"], chk.tier))
+    if r.get("hung"):
+        print("hung:", r["hung"])
+        chk.violation({"kind": "history", "step": "hung"}, {"kind": "history", "input": inp, "what": r["hung"]})
+        return chk.finish()
     lines = [s["line"] for s in r["steps"]]
     outs = common.run_driver(lines)
     for idx, (s, mline) in enumerate(zip(r["steps"], outs)):
